@@ -7,7 +7,7 @@ from loadsim import FsSim, make_enforcer, enc_defaults, observe, model_history, 
 
 GEN = ['GPolicy.v', 'GChecks.v', 'GParser.v']
 
-ACTIONS = ['load', 'forced', 'enforce', 'edit']
+ACTIONS = ['load', 'forced', 'enforce', 'edit', 'editmain']
 SHARED = [('alpha', 'role:new_alpha', ('old_alpha', 'role:old_alpha'), None),
           ('beta', 'role:new_beta or role:x', ('beta', 'role:old_beta'), None),
           ('gamma', 'role:gamma', None, ['project']),
@@ -68,20 +68,21 @@ def run_scenario(root, nenf, actions, seed):
     for idx, act in actions:
         x = enfs[idx]
         force = 0
-        if act == 'edit':
+        if act in ('edit', 'editmain'):
             x['k'] += 1
-            contents = [{'beta': 'role:edit%d_%d' % (idx, x['k'])},
-                        {'old_alpha': 'role:oldovr%d' % x['k'], 'old_delta': 'role:od'},
+            # first edit: an override under deprecated names appears; second: it is gone again; then others
+            contents = [{'old_alpha': 'role:oldovr%d' % x['k'], 'old_delta': 'role:od'},
                         {},
-                        {'alpha': 'role:newovr%d' % x['k']}]
-            if (x['k'] + seed) % 2 == 0:
+                        {'alpha': 'role:newovr%d' % x['k']},
+                        {'beta': 'role:edit%d_%d' % (idx, x['k'])}]
+            if act == 'editmain':
                 # the policy file itself is edited (or appears, or is emptied), the directory left alone
-                if x['fs'].main is not None and (x['k'] + seed) % 3 == 0:
+                if x['fs'].main is not None and x['k'] % 2 == 0:
                     x['fs'].write_main({}, 'yaml')           # zero bytes
                 else:
                     x['fs'].write_main({'alpha': 'role:mainedit%d_%d' % (idx, x['k']), 'zeta': '@'}, 'yaml')
             else:
-                x['fs'].write('policy.d', 'x.yaml', contents[(x['k'] + idx) % 4], 'yaml')
+                x['fs'].write('policy.d', 'x.yaml', contents[(x['k'] - 1) % 4], 'yaml')
             x['fs'].sync()
             x['e'].load_rules()
         elif act == 'load':
@@ -94,7 +95,7 @@ def run_scenario(root, nenf, actions, seed):
         evals += 1
         o = observe(x['e'])
         # loading again yields the same effective policy as loading once
-        if x['obs'] and act != 'edit' and x.get('seen_clock') == x['fs'].clock and o['rules'] != x['obs'][-1]['rules']:
+        if x['obs'] and act not in ('edit', 'editmain') and x.get('seen_clock') == x['fs'].clock and o['rules'] != x['obs'][-1]['rules']:
             viol = ('not-idempotent', 'enforcer %d: %s changed the effective policy: %r -> %r'
                     % (idx, act, x['obs'][-1]['rules'], o['rules']),
                     {'kind': 'failing-input', 'suite': 'spec-c12',
@@ -166,8 +167,9 @@ def run(run, binfo):
     k = 0
     for a1, a2, a3 in itertools.product(('load', 'enforce', 'forced'), repeat=3):
         for ed, nxt in ((0, 1), (1, 0)):
-            scen.append((2, [(0, a1), (1, a2), (ed, 'edit'), (nxt, a3), (ed, 'enforce')], 3 * (len(scen) + k)))
-            k += 2      # keeps the seed a multiple of three: the shared-files variant
+            for kind in ('edit', 'editmain'):
+                scen.append((2, [(0, a1), (1, a2), (ed, kind), (nxt, a3), (ed, 'enforce')], 3 * (len(scen) + k)))
+                k += 2      # keeps the seed a multiple of three: the shared-files variant
     nexh = len(scen)
     nrand = 40 if tier == 'quick' else 1500
     for _ in range(nrand):
@@ -197,7 +199,7 @@ def run(run, binfo):
         run.violation('correspondence:S5', 'an enforcer\'s state is not the model\'s function of its own history',
                       {'kind': 'broken-obligation', 'obligation': 'correspondence suite S5 (independent enforcers)',
                        'input': c, 'model': m, 'observed': o, 'count': len(bad_corr)})
-    run.rule = ('interleavings of {load, forced load, enforce, edit file} up to length %d over 1-2 enforcers (exhaustive, strided for '
+    run.rule = ('interleavings of {load, forced load, enforce, edit a directory file, edit / create / empty the policy file} up to length %d over 1-2 enforcers (exhaustive, strided for '
                 'two enforcers in quick) and %d random interleavings of 4-12 actions over 1-3 enforcers, each enforcer with its own '
                 'files (in a third of the scenarios two enforcers read the SAME files) and enforce_new_defaults value, all registering the SAME list of RuleDefault/DeprecatedRule objects (renamed, '
                 'same-name and plain): effective policy after each non-edit action equals the previous one and after every action equals that of a fresh enforcer loading once, deep attribute '
